@@ -535,6 +535,9 @@ func c02Values(thorough bool) [][]byte {
 			vs = append(vs, []byte(repeatTo("a", a)+" \t "+repeatTo("b", b)), []byte(repeatTo("a", a)+"  "+repeatTo("b", b)+"  "+repeatTo("c", a)))
 		}
 	}
+	for a := 40; a <= 90; a++ {
+		vs = append(vs, []byte(repeatTo("realistic words in a subject line ", a)+" "), []byte(" "+repeatTo("x", a)), []byte(repeatTo("w", a)+"\t"))
+	}
 	vs = append(vs, []byte("100% sure %s %d %v %%"), []byte("%!s(MISSING)"), []byte("%n%n%n"),
 		[]byte("x\r\nX-Injected: yes"), []byte("x\r\n\r\ninjected body"), []byte("=?utf-8?q?already=20encoded?="), []byte("a\r\n b"), []byte("x\nBcc: evil@example.com"))
 	return vs
